@@ -49,7 +49,7 @@ _p("C01", probes_quick=["tracker_history", "visual_voting", "tracker_kinds"],
    assumptions=K + V,
    not_covered=["exactly one record per detection, in submission order (predict_with_scene drives store worker threads and HashMap winners)",
                 "no two detections receive the same id within one call; batch trackers' Arc<RwLock<u64>> counter under concurrency"])
-_p("C02", probes_quick=["sort_voting", "tracker_history", "tracker_lifecycle_c03", "tracker_kinds"],
+_p("C02", probes_quick=["sort_voting", "tracker_history", "tracker_lifecycle_c03", "tracker_kinds", "bbox_iou_exact_c08"],
    level_text=PROOF_TEXT + "Decides the gate of C02 for all inputs: a pair is offered for continuation only at or above the IoU threshold resp. with zero weight outside the chi-square gate, never beyond bounding-circle reach.",
    level_note="Callees too_far / calculate_metric_object / distance are recording stubs (callers checked against callee contracts). NOT covered: optimality of the assignment (SortVoting::winners: HashMap + pathfinding::kuhn_munkres) - greedy-vs-optimal mutants inside winners are not detected by this check.",
    technique="Kani function contracts and recording-stub harnesses on SortMetric::metric / calculate_cost",
@@ -63,7 +63,7 @@ _p("C03", probes_quick=["tracker_history", "tracker_lifecycle_c03", "tracker_kin
    assumptions=K + V,
    not_covered=["conservation of tracks / wasted exactly once over call histories", "independence from the periodic collection", "idle_tracks listing",
                 "frame of the epoch writers (other scenes' epochs untouched): bounded probe only"])
-_p("C04", probes_quick=["tracker_history", "tracker_lifecycle_c03", "tracker_kinds"],
+_p("C04", probes_quick=["tracker_history", "tracker_lifecycle_c03", "tracker_kinds", "sort_voting"],
    level_text=PROOF_TEXT + "Decides the per-call part of scene isolation: tracks of different scenes are never compatible (for all epochs, boxes, options), an update writes exactly the candidate's scene, epoch reads/advances address exactly the given scene.",
    level_note="NOT covered: the two-run non-interference statement (a hyperproperty over histories) and zero columns in the assignment matrix.",
    technique="Kani recording-stub harness on compatible()/apply; Verus postconditions on EpochDb extract",
